@@ -61,6 +61,10 @@ Inductive case :=
 | KEval (o : oracles) (s : source) (sets : list kvmap) (obs : option (list (option bool)))
 (* in-process server: one write per text (ok?), then SHOW PARTITIONS / SELECT FROM source: the tag lines seen, sorted *)
 | KE2E (o : oracles) (texts : list (bytes * bool)) (wrote : list bool) (visits : list (source * vres bytes))
+(* one tindex service under GetOrCreateJournal / GetJournal (no creation) / Delete (of an exclusively locked
+   partition, named by its renamed id): per operation the answer -- for a call or a look-up the partition, for a
+   deletion (id, empty map, true); None = error; Some None = NotFound -- then Visit(source) for every source *)
+| KOps (o : oracles) (ops : list hop) (obs : list (option (option (nat * kvmap * bool)))) (visits : list (source * vres nat))
 (* k goroutines race GetOrCreateJournal on spellings of one new tag set: number of distinct ids returned,
    number of partitions afterwards *)
 | KRace (o : oracles) (texts : list bytes) (distinct : nat) (parts : nat)
@@ -99,6 +103,16 @@ Definition check (c : case) : bool :=
         vres_eqb bytes_eqb
           (match model_visit o (fun d => line (tbl_quote (o_q o)) (d_tags d)) st (fst v) with
            | VOk l => VOk (dedup_sorted (sort_bytes l)) | r => r end) (snd v)) visits
+  | KOps o ops obs visits =>
+      let '(st, rs) := run_ops (tbl_quote (o_q o)) (tbl_unquote (o_unq o)) t_empty ops in
+      all2b (fun r ob => match r, ob with
+                         | GNotFound, Some None => true
+                         | GNotFound, _ => false
+                         | _, Some None => false
+                         | _, Some x => res_eqb r x
+                         | _, None => res_eqb r None
+                         end) rs obs &&
+      forallb (fun v => vres_eqb Nat.eqb (model_visit o d_src st (fst v)) (snd v)) visits
   | KRace o texts distinct parts =>
       (* every order of the atomic steps gives the same ids; take the text order *)
       let '(st, rs) := run (tbl_quote (o_q o)) (tbl_unquote (o_unq o)) t_empty texts in
